@@ -56,7 +56,7 @@ var baseWeights = map[string]int{
 	"propose": 8, "proposebatch": 1, "proposeconf": 2, "transfer": 1, "readindex": 2,
 	"campaign": 1, "forget": 1, "unreachable": 1, "reportsnap": 3, "compact": 1,
 	"crash": 1, "restart": 4, "isolate": 1, "blocklink": 1, "heal": 2,
-	"duprecent": 2, "diverge": 1, "proposemixed": 1, "burst": 3, "slowdisk": 2, "lagcompact": 1, "stallelect": 1, "hold": 1, "release": 2, "snaprace": 0,
+	"duprecent": 2, "diverge": 1, "proposemixed": 1, "burst": 3, "slowdisk": 2, "lagcompact": 1, "stallelect": 1, "hold": 1, "release": 2, "snaprace": 0, "snapunavail": 1,
 }
 
 func mkProfile(name string, over map[string]int, f func(p *Profile)) *Profile {
@@ -532,6 +532,13 @@ func (s *Sim) RandomAction(p *Profile) {
 			j = uint64(d.Int(int(n.Disk.first()-1), int(i), "compactindex"))
 		}
 		s.Compact(n, i, j)
+	})
+	// Storage.Snapshot() may fail with ErrSnapshotTemporarilyUnavailable
+	// (documented in the Storage interface): the next call at this node does.
+	add("snapunavail", len(up) > 0, func() {
+		n := pickNode(up, "node")
+		s.begin("SnapshotTemporarilyUnavailable(%d)", n.ID)
+		n.Disk.TempUnavailable = true
 	})
 	add("crash", len(up) > 0, func() {
 		s.Crash(pickNode(up, "node"), d.Int(0, 1, "partial") == 1, d.Int(0, 1, "loseunsynced") == 1)
